@@ -259,6 +259,8 @@ def run(run, ix, tier):
 
     check_unwrapped_returns(run, ix)
     check_pass_through(run, ix)
+    check_cache_hit_rounding(run, ix)
+    check_polyval_constant(run, ix)
     # the engine treats exact_nthroot(s, n, prec, approx) as bounded by prec (round_flow.GUARD_BOUNDED): the
     # guard that makes this true is verified here as well
     from ..report import SubRun
@@ -619,3 +621,67 @@ def check_pass_through(run, ix):
                                      'the sibling class rounds' % norm(st.targets[0]), line=st.lineno))
                 else:
                     run.ok('B-R8', '%s.%s = %s' % (cname, norm(st.targets[0]), norm(lam, 50)))
+
+
+
+HIT_ROUNDED = [
+    # public (not wrapper-rounded) functions with a (precision, value) cache: file, function, cache name
+    ('mpmath/functions/zeta.py', 'stieltjes', 'stieltjes_cache'),
+    ('mpmath/functions/bessel.py', 'coulombc', '_cache'),
+    ('mpmath/functions/bessel.py', 'c_memo.f_wrapped', 'cache'),
+]
+
+
+def check_cache_hit_rounding(run, ix):
+    """B-R11.  A (precision, value) cache serves a stored value whenever it was computed at a precision >= the
+    current one.  The value then carries the bits of THAT precision; a function that no wrapper re-rounds must return
+    `+value` on a hit (stieltjes(2) at 100 bits, then at 53 bits, returned a 97-bit mantissa when it did not)."""
+    run.rule('B-R11', floor=3, desc='values served from a (precision, value) cache are re-rounded to the current precision')
+    for rel, qn, cname in HIT_ROUNDED:
+        f = ix.func(rel, qn)
+        hits = []
+        for x in _walk_own(f.node):
+            if isinstance(x, ast.If) and any(isinstance(c, ast.Compare) and isinstance(c.ops[0], ast.GtE)
+                                             for c in ast.walk(x.test)) and 'prec' in norm(x.test):
+                hits.extend(r for b in x.body for r in ast.walk(b) if isinstance(r, ast.Return))
+        if not hits:
+            raise AnalysisError('%s: cache-hit return not found' % qn)
+        for r in hits:
+            if isinstance(r.value, ast.UnaryOp) and isinstance(r.value.op, ast.UAdd):
+                run.ok('B-R11', '%s: the cached value is returned as `%s`' % (qn, norm(r.value)))
+            else:
+                run.fail(Finding('B-R11', rel, qn, norm(r), 'the value stored at a higher precision is returned as it '
+                                 'is: after a call at 100 bits, the same call at 53 bits returns a mantissa of up to 100 '
+                                 'bits', line=r.lineno))
+
+
+def check_polyval_constant(run, ix):
+    """B-R8p.  polyval converts its leading coefficient exactly and rounds only inside the Horner loop, which runs
+    once per FURTHER coefficient: for a constant polynomial the loop does not run, and the value returned is the
+    coefficient as given.  Decided: between the conversion and the returns the value is re-rounded (`p = +p`)
+    unconditionally or under `len(coeffs) == 1`, or every return applies the unary plus."""
+    run.rule('B-R8p', floor=1, desc='polyval rounds the value of a constant polynomial')
+    f = ix.func('mpmath/calculus/polynomials.py', 'polyval')
+    conv = [a for a in _walk_own(f.node) if isinstance(a, ast.Assign) and isinstance(a.value, ast.Call) and
+            norm(a.value.func) == 'ctx.convert' and isinstance(a.value.args[0], ast.Subscript)]
+    if not conv:
+        raise AnalysisError('polyval: conversion of the leading coefficient not found')
+    pn = norm(conv[0].targets[0])
+    rerounded = False
+    for a in _walk_own(f.node):
+        if isinstance(a, ast.Assign) and norm(a.targets[0]) == pn and isinstance(a.value, ast.UnaryOp) and \
+                isinstance(a.value.op, ast.UAdd) and norm(a.value.operand) == pn and a.lineno > conv[0].lineno:
+            par = a._parent
+            if par is f.node or (isinstance(par, ast.If) and norm(par.test).replace(' ', '') in
+                                 ('len(%s)==1' % f.params[1], 'len(%s)<2' % f.params[1])):
+                rerounded = True
+    rets = [r for r in _walk_own(f.node) if isinstance(r, ast.Return) and r.value is not None and
+            pn in [n_.id for n_ in ast.walk(r.value) if isinstance(n_, ast.Name)]]
+    plus = rets and all(isinstance(r.value, ast.UnaryOp) and isinstance(r.value.op, ast.UAdd) for r in rets
+                        if isinstance(r.value, (ast.Name, ast.UnaryOp)))
+    if rerounded or (plus and all(isinstance(r.value, ast.UnaryOp) for r in rets)):
+        run.ok('B-R8p', 'polyval: the value of a constant polynomial is re-rounded')
+    else:
+        run.fail(Finding('B-R8p', f.file, f.qualname, norm(conv[0]), 'for a one-element coefficient list the Horner loop '
+                         'does not run and the converted coefficient is returned as given: polyval([c], 3) with a '
+                         '199-bit c at 20 bits has 199 bits', line=conv[0].lineno))
